@@ -35,7 +35,7 @@ def rand_net4(r, lens=(8, 12, 16, 20, 24, 28, 30, 32)):
 def gen_knobs(r):
     return {"set_key": "%08x" % r.getrandbits(32), "rand_seed": r.getrandbits(32), "urandom_key": r.getrandbits(32),
             "clock": 1_500_000_000 + r.getrandbits(28), "pid": r.randint(2, 60000),
-            "host": r.choice(["rtr-lab-1", "build42", "localhost", "anon-box"]),
+            "host": r.choice(["rtr-lab-1", "build42", "localhost", "anon-box"]), "sched_key": "%08x" % r.getrandbits(32),
             "environ": {"TZ": r.choice(["UTC", "Asia/Tokyo", "America/Lima"]), "LANG": r.choice(["C", "en_US.UTF-8", "de_DE.UTF-8"]),
                         "USER": r.choice(["root", "alice", "svc-netconan"]), "COLUMNS": str(r.choice([80, 132, 200]))},
             "listing_key": None if r.random() < 0.15 else "%08x" % r.getrandbits(32),
@@ -162,6 +162,9 @@ def make_ctx(r, o, nwords=None):
         net = ipaddress.ip_network(n)
         k4.append(str(ipaddress.IPv4Address(int(net.network_address) | (r.getrandbits(32 - net.prefixlen)
                                                                           if net.prefixlen < 32 else 0))))
+    if r.random() < 0.3:
+        # kept tokens written with zero-padded octets must come out as written
+        k4 = k4 + [".".join(o_.zfill(3) for o_ in t.split(".")) for t in r.sample(k4, min(2, len(k4)))]
     ctx = {"a4": G.addr_pool4(r, nets), "a6": G.addr_pool6(r), "k4": k4, "keep_is_net": len(G.MASKS4),
            "as": o.get("as") or G.AS_POOL[:2], "words": o.get("words") or []}
     return ctx
@@ -174,7 +177,7 @@ def add_words(r, o, n=None, forbidden=""):
 
 def gen_secrets(r, n, classes=None, words=(), variant_rate=0.12):
     """n secret identities with an `a` value and a same-shape `b` value (paired world)."""
-    classes = classes or ["text", "text", "num", "hex", "t7", "md5", "sha", "j9p", "j9p", "j9p-num", "j9p-hex", "c9", "rwc"]
+    classes = classes or ["text", "text", "num", "hex", "t7", "md5", "sha", "j9p", "j9p", "j9p-num", "j9p-hex", "j9p-l1", "c9", "rwc"]
     out = {}
     used = set()
     for i in range(n):
@@ -211,7 +214,11 @@ def gen_secrets(r, n, classes=None, words=(), variant_rate=0.12):
                 # a different secret that differs from an earlier one only in letter case
                 same = [k for k in sorted(out) if out[k]["cls"] == cls]
                 prev = out[r.choice(same)] if same else out[r.choice(sorted(out))]
-                if prev["cls"] == cls and cls in ("text", "hex", "t7", "j9p", "j9p-hex"):
+                if prev["cls"] == cls == "j9p-l1":
+                    # differs from the earlier plaintext only in its non-ASCII letters
+                    tr = str.maketrans("\xe4\xf6\xfc\xe9\xf1\xdf", "\xf6\xfc\xe9\xf1\xdf\xe4")
+                    a, b = prev["a"].translate(tr), prev["b"].translate(tr)
+                elif prev["cls"] == cls and cls in ("text", "hex", "t7", "j9p", "j9p-hex"):
                     a2, b2 = prev["a"].swapcase(), prev["b"].swapcase()
                     if cls == "text" and r.random() < 0.5:
                         # ... or only in a leading backslash (never a trailing one: `\"` would read as an escaped quote)
@@ -219,7 +226,7 @@ def gen_secrets(r, n, classes=None, words=(), variant_rate=0.12):
                         a2, b2 = bs + prev["a"], bs + prev["b"]
                     if a2 != prev["a"] and b2 != prev["b"]:
                         a, b = a2, b2
-            want = {"j9p": "text", "aws": "text", "j9p-num": "num", "j9p-hex": "hex", "c9": "j9"}.get(cls, cls)
+            want = {"j9p": "text", "aws": "text", "j9p-num": "num", "j9p-hex": "hex", "c9": "j9", "j9p-l1": "text"}.get(cls, cls)
             ok = (G.classify(a) == want and G.classify(b) == want and len(a) == len(b) and a != b
                   and a not in used and b not in used
                   and not any(w.lower() in a.lower() or w.lower() in b.lower() for w in words))
@@ -241,7 +248,7 @@ def slot_class(cls):
         return "text"
     if cls == "pseudo":
         return "text"
-    if cls in ("j9p", "j9p-num", "j9p-hex", "c9", "j9mix"):
+    if cls in ("j9p", "j9p-num", "j9p-hex", "c9", "j9mix", "j9p-l1"):
         return "j9"
     if cls.startswith("md5"):
         return "md5"
@@ -283,7 +290,7 @@ def secret_line(r, ctx, secrets, kinds=("keep", "scrub"), ident=None, templates=
                     i = r.choice(cand)
                 first = False
                 meta = {"id": int(i), "kind": kind}
-                if secrets[i]["cls"].startswith("j9p"):
+                if secrets[i]["cls"].startswith("j9p") and secrets[i]["cls"] != "j9p-never":
                     meta.update(enc="j9", salt=r.choice(G.J9_ALPHA), fill=r.choice("nQz7i"))
                 segs.append(["sec", "", meta])
         # merge adjacent literals
